@@ -735,8 +735,24 @@ func (u *Unit) staticType(e Expr, vars map[string]types.Type) types.Type {
 			return sl.Elem()
 		}
 	case EAssert:
-		if tv, err := (&Env{u: u, vars: map[string]Val{}, st: &State{guard: "true", comp: map[string]Term{}}, pkg: u.curPkg}).EvalVal(n.T); err == nil && tv.IsType {
-			return tv.Typ
+		for _, pk := range []*types.Package{u.curPkg, u.P.TPkgs["xmpp"], u.P.TPkgs["stanza"]} {
+			if tv, err := (&Env{u: u, vars: map[string]Val{}, st: &State{guard: "true", comp: map[string]Term{}}, pkg: pk}).EvalVal(n.T); err == nil && tv.IsType {
+				return tv.Typ
+			}
+		}
+	case ECall:
+		if n.Fun == "ite" && len(n.Args) == 3 {
+			if t := u.staticType(n.Args[1], vars); t != nil {
+				return t
+			}
+			return u.staticType(n.Args[2], vars)
+		}
+		if p, ok := u.P.CS.Preds[n.Fun]; ok && len(p.Params) == len(n.Args) {
+			pv := map[string]types.Type{}
+			for i, a := range n.Args {
+				pv[p.Params[i]] = u.staticType(a, vars)
+			}
+			return u.staticType(p.Body, pv)
 		}
 	}
 	return nil
